@@ -85,7 +85,7 @@ def cases(seed, tier, shard, nshards):
             # not even step the counter of a unit deeper than secnumdepth; the statement does not go there)
             depth = max(depth, 1)
         exp, m = CM.numbers(d, depth)
-        yield {'kind': 'doc', 'src': docs.latex(d), 'expect': [[k, n] for k, n, _ in exp], 'depth': depth, 'cls': d['cls'], 'final': dict(m.v),
+        yield {'kind': 'doc', 'src': docs.latex(d), 'expect': [[k, n] for k, n, _ in exp], 'depth': depth, 'cls': d['cls'], 'final': dict(m.v), 'user_trace': (list(m.user_trace) if depth >= 1 else []),      # NF-13: counters within section are judged only when sections are numbered
                'has_counter_ops': 'counter{' in docs.latex(d)}
 
 
@@ -163,6 +163,16 @@ def run(case, st):
                     i, e[0], g[2], g[1], e[1], case['depth'], [x[1] for x in got[max(0, i - 4):i]]))
                 break
             st.feature('numbered', '%s:%s' % (e[0], 'none' if e[1] is None else ('dotted' if '.' in e[1] else ('alpha' if e[1].isalpha() else 'plain'))))
+    if case.get('user_trace') and not bad:
+        import re
+        seen = re.findall(r'Zu\d+v\d+w', str(doc.textContent))
+        st.counters['user_counter_probes'] += len(case['user_trace'])
+        if seen != case['user_trace']:
+            k = 0
+            while k < min(len(seen), len(case['user_trace'])) and seen[k] == case['user_trace'][k]:
+                k += 1
+            bad = ('user-counter-chain', 'user counters declared with \\newcounter{zqu}[section]\\newcounter{zqw}[zqu]: probe %d prints %r, LaTeX rules give %r (all: %r / %r)' % (
+                k, seen[k:k + 1], case['user_trace'][k:k + 1], seen[:8], case['user_trace'][:8]))
     if bad:
         st.violation(bad[0], case, bad[1] + '\n' + src[:1500])
     for msg in _hook_viol[:1]:
